@@ -5,7 +5,7 @@ from __future__ import annotations
 import ast
 from typing import Optional
 
-from ..absval import Closure, Interp, ItemGetter, LocalDef, Obj, Outcome, Sym, Unknown, enumerate_paths
+from ..absval import Closure, Interp, ItemGetter, LocalDef, Obj, Outcome, RaiseSignal, Sym, Unknown, enumerate_paths
 from ..flow import Formula, implication, is_stale, leaves, path_condition, truth_table
 from ..model import AnchorMissing, Func, Undecided, bind_args, dotted, norm, walk_no_nested
 from ..pointwise import PV, LabelSeq, Pointwise, required_bits
@@ -708,9 +708,24 @@ def check_naive(ctx: Ctx, only: Optional[str] = "NaiveThresholdMatching"):
             atoms.form.domains.setdefault("cfg:allow_many_to_one", [False, True])
         calls = [c for c in calls_resolving_to(prog, f, add)]
         thr_key = None
+        gv = gw = None
+        if cls.name == "NaiveThresholdMatching":
+            try:
+                gv, gw, gruns = greedy_run(ctx, cls, f)
+            except (Undecided, AnchorMissing, RaiseSignal) as e:
+                gv, gw, gruns = None, {"why": f"{type(e).__name__}: {e}"}, 0
+            if gv is not None:
+                ctx.decide("R03.4g", f, f.node, f"{f.qual}:greedy-run", "on every ordering of four candidates over two reference and two prediction labels, every outcome of the threshold tests and both many-to-one settings the returned label map is the greedy one", gv, gw or {"runs": gruns})
         for c in calls:
             n_sites += 1
             construct = f"{f.qual}->add_labelmap_entry"
+            # an assignment whose rejection by the label map is caught and skipped ("ask forgiveness"): the
+            # guard lives in the label map, the path condition says nothing - decided by the greedy run
+            eafp = _caught_and_skipped(prog, f, c, add)
+            if eafp:
+                if gv is None:
+                    ctx.undecided("R03.4b", f, c, construct, f"assignment relies on the label map rejecting conflicting entries and the matcher could not be run: {gw}")
+                continue
             binding, problems = bind_args(add, c)
             pa = binding.get(add.call_params[0].name)
             ra = binding.get(add.call_params[1].name) if len(add.call_params) > 1 else None
@@ -787,6 +802,140 @@ def check_naive(ctx: Ctx, only: Optional[str] = "NaiveThresholdMatching"):
         okr = bool(rets) and all(isinstance(r.value, ast.Name) and r.value.id in lm_vars for r in rets)
         ctx.decide("R03.5", f, rets[0] if rets else f.node, f"{f.qual}:return", "matcher returns the label map it filled", True if okr else None)
     return n_sites
+
+
+def _caught_and_skipped(prog, f: Func, call: ast.Call, add: Func) -> bool:
+    """the call sits in a try whose handler catches what the adder raises and does nothing but move on"""
+    raised = set()
+    for fn in [add] + [m for m in (add.cls.methods.values() if add.cls else [])]:
+        for n in walk_no_nested(fn.node):
+            if isinstance(n, ast.Raise) and n.exc is not None:
+                e = n.exc.func if isinstance(n.exc, ast.Call) else n.exc
+                raised.add((dotted(e) or "").split(".")[-1])
+    pm = prog.parents(f)
+    cur = call
+    while id(cur) in pm:
+        par = pm[id(cur)]
+        if isinstance(par, ast.Try) and any(cur is st or any(cur is x for x in ast.walk(st)) for st in par.body):
+            for h in par.handlers:
+                hn = {(dotted(x) or "").split(".")[-1] for x in (h.type.elts if isinstance(h.type, ast.Tuple) else [h.type])} if h.type is not None else {"BaseException"}
+                body_ok = all(isinstance(st, (ast.Continue, ast.Pass)) or (isinstance(st, ast.Expr) and isinstance(st.value, (ast.Constant, ast.Call))) for st in h.body)
+                if body_ok and (hn & (raised | {"Exception", "BaseException"})):
+                    return True
+        cur = par
+    return False
+
+
+def _build_record(layout: dict, score, ref, pred):
+    """a candidate record in the generator's own layout"""
+    def build(prefix):
+        if prefix in layout:
+            return {"score": score, "ref": ref, "pred": pred}[layout[prefix]]
+        width = max((p[len(prefix)] for p in layout if p[: len(prefix)] == prefix and len(p) > len(prefix)), default=-1) + 1
+        return tuple(build(prefix + (i,)) for i in range(width))
+
+    return build(())
+
+
+def greedy_run(ctx: Ctx, cls, f):
+    """The threshold matcher run on every ordering of the four candidates over two reference and two
+    prediction labels, for every outcome of the four threshold tests and both many-to-one settings
+    (the exceptions it raises and catches included).  The label map it returns must be the greedy one:
+    a candidate is taken iff it meets the threshold, its prediction is free and (its reference is
+    free or many-to-one is allowed).  Returns (verdict, witness, runs)."""
+    from fractions import Fraction
+    from itertools import permutations
+
+    from .common import candidate_layout
+    from .resultrun import ResultInterp
+
+    prog = ctx.prog
+    gen = prog.func("_functionals:_calc_matching_metric_of_overlapping_labels")
+    pcls = prog.cls("utils.processing_pair:UnmatchedInstancePair")
+    init = cls.lookup("__init__")
+    api = labelmap_api(prog)
+    layout = candidate_layout(prog)
+    names = [p.name for p in init.call_params] if init is not None else []
+    tp = next((x for x in names if "thr" in x.lower()), None)
+    mp = next((x for x in names if "metric" in x.lower()), None)
+    op = next((x for x in names if "many" in x.lower()), None)
+    pairs = [(1, 1), (1, 2), (2, 1), (2, 2)]  # (reference label, prediction label)
+    runs = 0
+
+    class GreedyInterp(ResultInterp):
+        def external_call(self, name, args, kwargs, node):
+            if name == gen.qual:
+                return list(self.root.records)
+            if name in ("numpy.all", "numpy.any") and len(args) == 1 and isinstance(args[0], (list, tuple)) and all(isinstance(x, bool) for x in args[0]):
+                return all(args[0]) if name.endswith("all") else any(args[0])
+            return super().external_call(name, args, kwargs, node)
+
+        def call_func(self, f_, args, kwargs, node, self_obj=None):
+            if f_.name == "score_beats_threshold" and f_.cls is not None and f_.cls.name in ("Metric", "_Metric"):
+                sc = args[0] if args else next(iter(kwargs.values()), None)
+                if isinstance(sc, Sym) and sc.name.startswith("score"):
+                    return self.root.beats.setdefault(sc.name, Unknown("beats:" + sc.name))
+            return super().call_func(f_, args, kwargs, node, self_obj=self_obj)
+
+    for m2o in ((False, True) if op else (None,)):
+        mv, me = make_metric_objs(prog, False)
+        matcher = Obj(cls, {})
+        if init is not None:
+            a = {}
+            if tp:
+                a[tp] = Fraction(1, 2)
+            if mp:
+                a[mp] = me
+            if op:
+                a[op] = m2o
+            o0 = ResultInterp(prog, init, a, self_obj=matcher, metrics=[me]).run()
+            if o0.kind == "raise" or o0.decisions:
+                return None, {"why": f"constructor not evaluable: {o0.kind} {o0.exc}"}, runs
+        for order in permutations(range(4)):
+            records = [_build_record(layout, Sym(f"score{i}"), pairs[i][0], pairs[i][1]) for i in order]
+            its = []
+
+            def make(prefix, records=records):
+                pair = Obj(pcls, {"_prediction_arr": Sym("PRED_ARR"), "_reference_arr": Sym("REF_ARR"), "_ref_labels": (1, 2), "_pred_labels": (1, 2), "n_dim": 3, "n_prediction_instance": 2, "n_reference_instance": 2})
+                params = [p.name for p in f.call_params]
+                it = GreedyInterp(prog, f, {**({params[0]: pair} if params else {}), f.self_name: matcher}, metrics=[me], prefix=prefix)
+                it.root.no_inline = {gen.qual}
+                it.root.records = records
+                it.root.beats = {}
+                its.append(it)
+                return it
+
+            outs = enumerate_paths(make, max_paths=64)
+            for out in outs:
+                runs += 1
+                beats = {}
+                other = []
+                for nd, v, d in out.decisions:
+                    if isinstance(v, Unknown) and str(v.tag).startswith("beats:score"):
+                        beats[int(str(v.tag)[11:])] = d
+                    else:
+                        other.append(norm(nd) if isinstance(nd, ast.AST) else str(v))
+                scen = {"order": [pairs[i] for i in order], "meets_threshold": [beats.get(i) for i in order], "allow_many_to_one": m2o}
+                if other:
+                    return None, {"why": f"matcher splits on {other[:3]}", **scen}, runs
+                want = {}
+                for i in order:
+                    r, p_ = pairs[i]
+                    if i not in beats:
+                        continue  # not tested on this path: only possible for a candidate that could not be taken anyway
+                    if beats[i] and p_ not in want and (m2o or r not in want.values()):
+                        want[p_] = r
+                # a candidate whose test was skipped must indeed have been blocked
+                blocked_ok = all(pairs[i][1] in want or (not m2o and pairs[i][0] in want.values()) for i in order if i not in beats)
+                if out.kind != "return" or not isinstance(out.value, Obj):
+                    return False, {"outcome": f"{out.kind} {out.exc or ''}".strip(), **scen}, runs
+                got = out.value.attrs.get(api["dict_attr"])
+                if not isinstance(got, dict):
+                    return None, {"why": f"label map state not readable ({api['dict_attr']})", **scen}, runs
+                got = {k: v for k, v in got.items()}
+                if got != want or not blocked_ok:
+                    return False, {"got": {str(k): v for k, v in got.items()}, "greedy": {str(k): v for k, v in want.items()}, **scen}, runs
+    return True, None, runs
 
 
 def _score_thr_key(form: Formula, score: str):
